@@ -113,11 +113,22 @@ def line_of(text, idx):
     return text.count('\n', 0, idx) + 1
 
 
-def find_function(rel, head_re, body_open_re=r'\s*(?:const\s*)?(?:noexcept\s*)?(?:override\s*)?\{'):
+def class_region(text, rel, class_re):
+    ms = list(re.finditer(class_re + r'[^;{]*\{', text))
+    if len(ms) != 1:
+        raise ExtractError(f"{rel}: class head /{class_re}/ matched {len(ms)} times (need 1)")
+    ob = ms[0].end() - 1
+    return ob, match_brace(text, ob)
+
+
+def find_function(rel, head_re, body_open_re=r'\s*(?:const\s*)?(?:noexcept\s*)?(?:override\s*)?\{', within_class=None):
     """Locate the definition whose header matches head_re exactly once. Returns dict."""
     raw = read_repo(rel)
     text = blank_comments(raw)
-    ms = [m for m in re.finditer('(?:' + head_re + ')' + body_open_re, text)]
+    lo, hi = 0, len(text)
+    if within_class:
+        lo, hi = class_region(text, rel, within_class)
+    ms = [m for m in re.finditer('(?:' + head_re + ')' + body_open_re, text) if lo <= m.start() < hi]
     if len(ms) != 1:
         raise ExtractError(f"{rel}: function header /{head_re}/ matched {len(ms)} times (need 1)")
     m = ms[0]
@@ -180,6 +191,25 @@ def refparam(name, required=True):
         R(f"refparam:{name}:decl", r'&\s*' + name + r'\b(?=\s*[,)])', '* ' + name, required),
         R(f"refparam:{name}:member", r'(?<![\w.>])' + name + r'\.(?=\w)', name + '->', False),
     ]
+
+
+def reason_hash(sv):
+    h = 0x811C9DC5
+    for b in sv.encode():
+        h = ((h ^ b) * 0x01000193) & 0xFFFFFFFF
+    return h | 1   # never 0 (0 = no reason recorded)
+
+
+def reason_id(sv):
+    return re.sub(r'\W', '_', sv)
+
+
+def invalid_rule(state_expr_re, enum_ns, cfunc, required=True):
+    """`state.Invalid(Ns::RESULT, "reason"[, debug...])` -> `cfunc(state, RESULT, 0x<fnv32 of reason>u /* "reason" */)`;
+    the debug-message argument (strprintf etc.) is dropped."""
+    pat = state_expr_re + r'Invalid\(\s*' + enum_ns + r'::(\w+)\s*,\s*"([^"]*)"\s*(?:,[^;]*?)?\)(?=\s*;)'
+    return R("call:state.Invalid->" + cfunc, pat,
+             lambda m: f'{cfunc}(state, {m.group(1)}, {reason_hash(m.group(2)):#010x}u /* "{m.group(2)}" */)', required)
 
 
 GENERIC_RULES = [
@@ -259,6 +289,83 @@ def collapse_blank(text):
     return re.sub(r'\n\s*\n+', '\n', text)
 
 
+def _stmt_end(masked, i):
+    """index just past the statement starting at i (masked text): `{...}` block or up to the first `;` at depth 0
+    (an `if (...) stmt` / `for (...) stmt` nests)."""
+    n = len(masked)
+    while i < n and masked[i].isspace():
+        i += 1
+    if masked[i] == '{':
+        return match_brace(masked, i) + 1
+    m = re.match(r'(if|for|while)\s*\(', masked[i:])
+    if m:
+        cp = match_brace(masked, i + m.end() - 1)
+        e = _stmt_end(masked, cp + 1)
+        m2 = re.match(r'\s*else\b', masked[e:])
+        if m.group(1) == 'if' and m2:
+            return _stmt_end(masked, e + m2.end())
+        return e
+    depth = 0
+    while i < n:
+        c = masked[i]
+        if c in '([{':
+            depth += 1
+        elif c in ')]}':
+            depth -= 1
+        elif c == ';' and depth == 0:
+            return i + 1
+        i += 1
+    raise ExtractError("statement end not found")
+
+
+def weave_loops(text, loops, slice_name):
+    """loops: [{ordinal, contract, prologue?}] -- insert the loop-contract macro after the n-th loop header and
+    an optional ghost prologue macro as first statement of its body (brace-less bodies are wrapped in braces)."""
+    if not loops:
+        return text
+    for lp in loops:
+        masked = _mask_literals(text)
+        heads = list(re.finditer(r'\b(for|while)\s*\(', masked))
+        if "match" in lp:
+            # the loop whose header text matches (after rules); optional loops may be absent (deleted code must
+            # surface as a failed contract, not as an extraction break)
+            cand = [h for h in heads if re.search(lp["match"], text[h.start():match_brace(masked, h.end() - 1) + 1])]
+            if len(cand) > 1:
+                raise ExtractError(f"{slice_name}: loop /{lp['match']}/ matched {len(cand)} loops")
+            if not cand:
+                if lp.get("required", True):
+                    raise ExtractError(f"{slice_name}: loop /{lp['match']}/ not found")
+                continue
+            h = cand[0]
+        else:
+            if lp["ordinal"] >= len(heads):
+                raise ExtractError(f"{slice_name}: loop ordinal {lp['ordinal']} does not exist ({len(heads)} loops found)")
+            h = heads[lp["ordinal"]]
+        cp = match_brace(masked, h.end() - 1)
+        body_start = cp + 1
+        body_end = _stmt_end(masked, body_start)
+        body = text[body_start:body_end]
+        pro = lp.get("prologue")
+        if pro:
+            if body.lstrip().startswith('{'):
+                k = body.index('{')
+                body = body[:k + 1] + " " + pro + ";" + body[k + 1:]
+            else:
+                body = " { " + pro + "; " + body.strip() + " }"
+        text = text[:body_start] + "\n" + lp["contract"] + "\n" + body + text[body_end:]
+    return text
+
+
+def rangefor(var, container_re, arr, size, idx=None, required=True):
+    """`for (const auto& var : <container>)` -> index loop over the shim array; `var.` -> `arr[idx].`"""
+    idx = idx or ("i_" + var)
+    return [
+        R(f"rangefor:{var}:head", r'for\s*\(\s*(?:const\s+)?auto\s*&\s*' + var + r'\s*:\s*' + container_re + r'\s*\)',
+          f'for (size_t {idx} = 0; {idx} < {size}; {idx}++)', required),
+        R(f"rangefor:{var}:use", r'(?<![\w.>])' + var + r'\.(?=\w)', f'{arr}[{idx}].', required),
+    ]
+
+
 def extract_slice(spec):
     """spec: dict with keys name, file, kind(func|frag|const), ... -> dict(emitted, info)."""
     kind = spec.get("kind", "func")
@@ -285,7 +392,7 @@ def extract_slice(spec):
                 "sha256": hashlib.sha256(orig.encode()).hexdigest(), "listing": side_by_side(orig, emitted)}
         return emitted + "\n", info, orig
     if kind == "func":
-        loc = find_function(spec["file"], spec["head"], spec.get("body_open", r'\s*(?:const\s*)?(?:noexcept\s*)?(?:override\s*)?\{'))
+        loc = find_function(spec["file"], spec["head"], spec.get("body_open", r'\s*(?:const\s*)?(?:noexcept\s*)?(?:override\s*)?\{'), spec.get("within_class"))
     elif kind == "frag":
         loc = find_fragment(spec["file"], spec["begin"], spec["end"], spec.get("include_end", True), spec.get("within"))
     else:
@@ -295,6 +402,7 @@ def extract_slice(spec):
     if not spec.get("no_generic"):
         rules = rules + GENERIC_RULES
     text, fired = apply_rules(text, rules, name)
+    text = weave_loops(text, spec.get("loops"), name)
     if kind == "frag":
         text = spec.get("prologue", "") + "\n" + text + "\n" + spec.get("epilogue", "")
     check_leftovers(text if kind != "frag" else text[len(spec.get("prologue", "")):], name, spec.get("allow_leftover", ()))
